@@ -1,14 +1,17 @@
 #!/bin/bash
-# mutant.sh <patch> <Cxx> [quick|thorough]   apply a property-breaking patch to /repo, run the check, undo.
-# Prints "CAUGHT" (check exit 1) or "SURVIVED" (exit 0) or "BROKEN" (anything else). Never leaves /repo modified.
+# mutant.sh <patch> <Cxx> [quick|thorough]   apply a property-breaking patch to a SCRATCH COPY of /repo
+# (never /repo itself), run the check against that copy, delete the copy.
+# Prints CAUGHT (check exit 1), SURVIVED (exit 0) or BROKEN (anything else).
 . "$(dirname "${BASH_SOURCE[0]}")/env.sh"
 patch="$(realpath "$1")"; prop="$2"; tier="${3:-quick}"
-if ! git -C /repo diff --quiet; then echo "refusing: /repo has uncommitted changes" >&2; exit 2; fi
-git -C /repo apply "$patch" || { echo "BROKEN: patch does not apply: $patch"; exit 2; }
-trap 'git -C /repo checkout -- . ; git -C /repo clean -fdq; rm -rf "$VERIF_OUT_DIR"' EXIT
-export VERIF_OUT_DIR="$(mktemp -d)"
+scratch="$(mktemp -d /tmp/sio-mut-XXXXXX)"
+export VERIF_OUT_DIR="$scratch/out"; mkdir -p "$VERIF_OUT_DIR"
+trap 'rm -rf "$scratch" "$VERIF_ROOT/dst/bin/dst-mut-$$" "$VERIF_ROOT/dst/bin/dst-mut-$$-race"' EXIT
+rsync -a --exclude .git /repo/ "$scratch/repo/" || exit 2
+(cd "$scratch/repo" && patch -s -p1 < "$patch") || { echo "BROKEN: patch does not apply: $patch"; exit 0; }
+export DST_REPO="$scratch/repo" DST_BIN="$VERIF_ROOT/dst/bin/dst-mut-$$"
 out=$("$VERIF_ROOT/scripts/check.sh" "$prop" "$tier" 2>&1); rc=$?
-if [ $rc -eq 1 ]; then echo "CAUGHT $(basename "$patch") by $prop/$tier: $(echo "$out" | grep -A1 '^VIOLATION' | head -2 | tr '\n' ' ' | cut -c1-300)"
+if [ $rc -eq 1 ]; then echo "CAUGHT $(basename "$patch") by $prop/$tier: $(echo "$out" | grep -A1 '^VIOLATION' | head -2 | tr '\n' ' ' | sed "s#$scratch##g" | cut -c1-260)"
 elif [ $rc -eq 0 ]; then echo "SURVIVED $(basename "$patch") vs $prop/$tier"
 else echo "BROKEN $(basename "$patch") vs $prop/$tier rc=$rc: $(echo "$out" | tail -3 | tr '\n' ' ' | cut -c1-400)"; fi
 exit 0
